@@ -47,6 +47,10 @@ def run(ctx):
     rep.rule("C18.R5", "local normal/friction connectivity of the active set (index typing in compute_I_F)", 4)
     rep.rule("C18.R6", "one evaluation point (t, q) for all gap-rate terms of a velocity-level Signorini update", 3)
     nf_link(ctx)
+    rep.rule("C18.R9", "System.xi_N / xi_F are the linear form  rate(post) + e * rate(pre)  (no |.|, max or sign-dependent variant)", 2)
+    xi_linear(ctx)
+    rep.rule("C18.R8", "the percussion fixed point of a step compares successive iterates of THAT step (no reference iterate carried over from the previous step)", 3)
+    fresh_reference_iterate(ctx)
     rep.rule("C18.R7", "operator form of the restituted gap rate: coefficient of the obstacle velocity chi equals one plus the coefficient of W^T u(-)", 2)
     restitution_coefficients(ctx)
     for rel, cname, q, level in SITES:
@@ -164,6 +168,122 @@ def evaluation_point(rep, C, rel, call, arg, res, rule="C18.R6"):
         rep.bad(rule, C, proxrule._stmt_of(call), "the Newton-restituted gap rate mixes evaluation points: " + desc +
                 " - the pre-impact approach speed is measured along another normal than the one the percussion and the post-impact "
                 "gap rate use (kinetic energy can increase in a frictionless impact with e_N = 1)", f"{rel}:{call.lineno}")
+
+
+FP_LOOPS = [(RT_ := "cardillo/solver/rattle.py", "Rattle.solve"), ("cardillo/solver/rattle.py", "Rattle._iterative_projection_method"),
+            ("cardillo/solver/moreau.py", "Moreau.step"), ("cardillo/solver/backward_euler.py", "BackwardEuler.solve")]
+
+
+def xi_linear(ctx, rule="C18.R9"):
+    """System.xi_N / xi_F ARE Newton's law as the velocity-level schemes use it: xi = gap rate(post) + e * gap rate(pre), linear in both gap
+    rates with coefficients +1 and +e.  "Separation speed = e times closing speed" written with |.| (or max, clip) agrees only while the
+    pre-impact gap rate is negative; an active contact with a positive pre-impact rate that still needs a percussion (a ball coming to rest,
+    a push-back by a second contact) then gets g_dot(+) = +e g_dot(-)."""
+    from ..wterms import Terms
+    rep = ctx.rep
+    rel = "cardillo/system.py"
+    n = 0
+    for name, kin, e in (("xi_N", "g_N_dot", "e_N"), ("xi_F", "gamma_F", "e_F")):
+        fn = ctx.repo.maybe(rel, f"System.{name}")
+        if fn is None:
+            raise AnalysisError(f"{rel}: System.{name} vanished")
+        C = f"{rel}:System.{name}"
+        n += 1
+        local = {}
+        for x in ast.walk(fn):
+            if isinstance(x, ast.Assign) and len(x.targets) == 1 and isinstance(x.targets[0], ast.Name):
+                local[x.targets[0].id] = x.value
+        exprs = [st.value for st in ast.walk(fn) if isinstance(st, ast.Assign) and isinstance(st.targets[0], ast.Subscript) and norm_src(st.targets[0].value) == name]
+        exprs += [r.value for r in ast.walk(fn) if isinstance(r, ast.Return) and r.value is not None and not (isinstance(r.value, ast.Name) and r.value.id == name)]
+        if not exprs:
+            raise AnalysisError(f"{C}: defining expression not found")
+
+        def atom(x):
+            if isinstance(x, ast.Call):
+                last = (dotted(x.func) or "").split(".")[-1]
+                if last == kin and x.args:
+                    return f"{kin}@{'pre' if 'pre' in norm_src(x.args[0]) else 'post'}"
+                return "f:" + norm_src(x)[:50]
+            if isinstance(x, ast.Attribute):
+                return x.attr
+            if isinstance(x, ast.Name) and x.id not in local:
+                return x.id
+            return None
+        T = Terms(fn, atom)
+        T.local = {k: [v] for k, v in local.items()}
+        terms = sorted((c, tuple(sorted(f))) for c, f in T.expand(exprs[0]))
+        from fractions import Fraction
+        want = sorted([(Fraction(1), (f"{kin}@post",)), (Fraction(1), tuple(sorted((e, f"{kin}@pre"))))])
+        if terms == want:
+            rep.ok(rule, C, f"{name} = {kin}(post) + {e} * {kin}(pre)")
+        else:
+            show = " + ".join((("" if c == 1 else str(c) + " * ") + " * ".join(f)) for c, f in terms)
+            rep.bad(rule, C, exprs[0], f"`{name}` is `{show[:160]}`, not `{kin}(post) + {e} * {kin}(pre)`: Newton's law is linear in the pre-impact rate; a non-linear form (|.|, max) agrees only "
+                    "for closing contacts and reverses the law for an active contact whose pre-impact rate is positive (ball coming to rest, push-back by a second contact)",
+                    f"{rel}:{exprs[0].lineno}")
+    return n
+
+
+def fresh_reference_iterate(ctx, rule="C18.R8"):
+    """The percussion fixed point of a step is converged when an iterate agrees with its IMAGE under one application of the step's map
+    (project, re-solve).  A warm start from the previous step is fine as long as what is compared is z and G(z) (BackwardEuler compares the
+    percussions y0 with prox(x(y0), y0)); the data-flow form of that is: both operands of the convergence difference have a common
+    ancestor.  If the first test compares this
+    step's first solve with the solution stored from the PREVIOUS time step (`x2n = self.x2n.copy()`), a contact that stays closed for two
+    steps passes it at once - the percussions just projected are stored but were never fed back into the velocity, so P_N > 0 is not
+    complementary to the restituted gap rate on every second step of a settling ball.  Rule: no definition of an operand of the convergence
+    difference that reaches the test from outside the loop is a copy of solver state that the same routine carries over from step to step."""
+    from ..cfg import CFG
+    from ..dataflow import ReachingDefs
+    rep = ctx.rep
+    n = 0
+    for rel, q in FP_LOOPS:
+        fn = ctx.repo.maybe(rel, q)
+        if fn is None:
+            continue
+        C = f"{rel}:{q}"
+        persisted = {t.attr for st in ast.walk(fn) if isinstance(st, ast.Assign) for t in st.targets if isinstance(t, ast.Attribute) and dotted(t.value) == "self"}
+        loops = [w for w in ast.walk(fn) if isinstance(w, ast.For) and any(isinstance(c, ast.Call) and "prox" in (dotted(c.func) or "").split(".")[-1] for c in ast.walk(w))]
+        if not loops:
+            continue
+        cfg = CFG(fn)
+        rd = ReachingDefs(cfg)
+        for loop in loops:
+            inloop = {id(x) for x in ast.walk(loop)}
+            diffs = [nd for nd in cfg.nodes if nd.kind == "stmt" and isinstance(nd.ast, ast.Assign) and id(nd.ast) in inloop and isinstance(nd.ast.value, ast.BinOp)
+                     and isinstance(nd.ast.value.op, ast.Sub) and any(isinstance(t, ast.Name) and t.id.startswith("diff") for t in nd.ast.targets)]
+            for d in diffs:
+                n += 1
+                namesA = {w.id for w in ast.walk(d.ast.value.left) if isinstance(w, ast.Name)}
+                namesB = {w.id for w in ast.walk(d.ast.value.right) if isinstance(w, ast.Name)}
+                def first_pass_slice(names):
+                    """backward slice as seen in the FIRST pass through the loop: where a definition from before the loop reaches a use, only that one is followed"""
+                    seen, work = set(), [(d, set(names))]
+                    while work:
+                        node, ns = work.pop()
+                        for x in ns - {"self", "np", "lu"}:
+                            defs = [df for df in rd.defs_reaching(node, x) if df.ast is not None]
+                            outside = [df for df in defs if id(df.ast) not in inloop]
+                            inside_node = node.ast is not None and id(node.ast) in inloop
+                            for df in (outside if (outside and inside_node) else defs):
+                                if df.id not in seen:
+                                    seen.add(df.id)
+                                    work.append((df, set(rd.uses(df))))
+                    return {cfg.nodes[i_] for i_ in seen}
+                SA = first_pass_slice(namesA)
+                SB = first_pass_slice(namesB)
+                common = {x for x in (SA & SB) if x is not d and x.ast is not None}
+                if common:
+                    rep.ok(rule, C, f"`{norm_src(d.ast)[:60]}` compares an iterate with its image under this step's map (common ancestor: `{norm_src(sorted(common, key=lambda x: x.lineno)[-1].ast)[:40]}`)")
+                else:
+                    refs = [df.ast for nm in namesB for df in rd.defs_reaching(d, nm) if df.ast is not None]
+                    st = refs[0] if refs else d.ast
+                    rep.bad(rule, C, st, f"in `{norm_src(d.ast)[:50]}` the reference `{norm_src(d.ast.value.right)[:30]}` (from `{norm_src(st)[:50]}`) and the tested iterate have no common origin in this "
+                            "step: the first convergence test compares this step's first solve with state carried over from the previous step, so a contact that stays closed passes it "
+                            "before the projected percussions were fed back (stored P_N > 0 not complementary to the restituted gap rate on alternate steps of a settling ball)",
+                            f"{rel}:{getattr(st, 'lineno', d.lineno)}")
+    if n < 3:
+        raise AnalysisError(f"{rule}: only {n} convergence differences found in the percussion fixed-point loops")
 
 
 def restitution_coefficients(ctx, rule="C18.R7"):
@@ -397,6 +517,18 @@ MUTANTS += [
          expect=["C18.R6", "C18.R2"]),
     dict(id="c18-r6-2", what="DualStormerVerlet: xi_N called with the old configuration as pre-impact point", file=DSV,
          old="                xi_N = self.system.xi_N(tm, tm, qm, qm, un, un1)\n", new="                xi_N = self.system.xi_N(tn, tm, qn, qm, un, un1)\n", expect="C18.R6"),
+]
+MUTANTS += [
+    dict(id="c18-r9-seed", canary=True, what="[seeded by sub-agent] System.xi_N written as separation speed minus e_N times |closing speed|", file="cardillo/system.py",
+         old="            ) + contr.e_N * contr.g_N_dot(t_pre, q_pre[contr.qDOF], u_pre[contr.uDOF])\n", new="            ) - contr.e_N * np.abs(contr.g_N_dot(t_pre, q_pre[contr.qDOF], u_pre[contr.uDOF]))\n", expect="C18.R9"),
+]
+MUTANTS += [
+    dict(id="c18-r8-orig", canary=True, what="Rattle stage 2: first convergence test against the previous step's solution (original defect F53)", file=RT,
+         edits=[(RT, "            # store old values\n            y2n = self.y2n.copy()\n", "            # store old values\n            x2n = self.x2n.copy()\n            y2n = self.y2n.copy()\n"),
+                (RT, "                x2n = x2n1\n                b = b0.copy()  # mandatory copy\n                b[: self.nu] -= self.W_FNn @ y2n1\n                x2n1 = -lu.solve(b)\n", ""),
+                (RT, "                if converged:\n                    break\n\n            self.solver_summary.add_fixed_point(i2_fixed_point, error)\n",
+                 "                if converged:\n                    break\n                else:\n                    x2n = x2n1.copy()\n                    y2n = y2n1.copy()\n                    b = b0.copy()\n                    b[: self.nu] -= self.W_FNn @ y2n\n                    x2n1 = -lu.solve(b)\n\n            self.solver_summary.add_fixed_point(i2_fixed_point, error)\n")],
+         expect="C18.R8"),
 ]
 MUTANTS += [
     dict(id="c18-r7-seed", canary=True, what="[seeded by sub-agent] Moreau: obstacle velocity chi_N enters xi_N0 without the factor (1 + e_N)", file=MO,
